@@ -4,7 +4,7 @@ Whole-program forms of C08, C13, C10, C07 for TLS (HEADER REWRITTEN AT THE END)
 import TLX.Lemmas.ExportProps
 set_option linter.unusedSimpArgs false
 namespace TLX.Props.ExportProps
-open TLX TLX.MainLoop TLX.Export TLX.Spec.Demux TLX.Lemmas.ExportProps TLX.Props.C01Pipeline
+open TLX TLX.MainLoop TLX.Export TLX.Spec.Demux TLX.Lemmas.ExportProps TLX.Props.C01Pipeline TLX.Lemmas.Pipeline TLX.Lemmas.MainLoop
 
 variable (mask : Quic.Dissect.MaskFn) (H : Crypto.Prims) (P : Cipher.Prims) (info : Nat → Pipeline.Info)
 
@@ -61,5 +61,108 @@ theorem export_cut_prefix_tls (prior : Prior) (args : Args) (fk : Option (List K
   rw [h1] at hc
   rw [h2] at hf
   refine ⟨_, _, qc, qf, (Except.ok.inj hc).symm, (Except.ok.inj hf).symm, export_cut_prefix_tls_items H P info o fk xs n hkeys⟩
+
+-- ====================================================================== 2. C13: `-a` only adds
+/-- **C13, whole program, items level.** The same capture, key log and options, once without and once with `-a`:
+    the TLS conversations correspond one to one in the same order (`tlsConvs_optMeta`: the demultiplexer does not read the
+    flag); for each pair the application-data entries of `application_traffic` are the same, in the same order (the
+    `-a` run has them interleaved with the metadata entries), both exports exist, and the payload-carrying packets
+    without `-a` are a subsequence — same time, MACs, addresses, ports, payload, same order — of those with `-a`. -/
+theorem export_meta_only_adds_items (o : Opts) (fk : Option (List Keylog.Key)) (xs : List (Item Keylog.Key)) :
+    tlsConvs H P info (optMeta o true) xs = (tlsConvs H P info (optMeta o false) xs).map (sessMeta true) ∧
+    (tlsFrames H P info (optMeta o false) fk xs).length = (tlsFrames H P info (optMeta o true) fk xs).length ∧
+    ListExt (fun fOff fOn : List Pipeline.OutPkt => (dataPkts fOff).Sublist (dataPkts fOn))
+      (tlsFrames H P info (optMeta o false) fk xs) (tlsFrames H P info (optMeta o true) fk xs) ∧
+    ∀ s ∈ tlsConvs H P info (optMeta o false) xs,
+      (Session.run (Pipeline.ops H P (keysOf fk xs)) false Session.St.init (connRecs info s.st)).traffic
+        = (Session.run (Pipeline.ops H P (keysOf fk xs)) true Session.St.init (connRecs info s.st)).traffic.filter (·.isApp) := by
+  have hconv : tlsConvs H P info (optMeta o true) xs = (tlsConvs H P info (optMeta o false) xs).map (sessMeta true) := by
+    have h1 := tlsConvs_optMeta H P info (optMeta o false) true xs
+    exact h1
+  refine ⟨hconv, ?_, ?_, ?_⟩
+  · simp only [tlsFrames, List.length_map, hconv]
+  · unfold tlsFrames
+    rw [hconv, List.map_map]
+    have : ∀ (l : List (TlsSess Pipeline.Conn)), (∀ s ∈ l, s.st.opts.metadata = false) →
+        ListExt (fun fOff fOn : List Pipeline.OutPkt => (dataPkts fOff).Sublist (dataPkts fOn))
+          (l.map (convFrames H P info (keysOf fk xs)))
+          (l.map (convFrames H P info (keysOf fk xs) ∘ sessMeta true)) := by
+      intro l
+      induction l with
+      | nil => intro _; exact .nil _
+      | cons s rest ih =>
+        intro hl
+        refine .cons ?_ (ih (fun t ht => hl t (by simp [ht])))
+        obtain ⟨fsOn, fsOff, h1, h2, h3⟩ := connOut_meta_only_adds H P info s.st (keysOf fk xs)
+        have hoff : setMeta s.st false = s.st := by
+          have := hl s (by simp)
+          cases hs : s.st with
+          | mk opts sv cl sm cm v6 pk =>
+            rw [hs] at this
+            cases opts
+            simp only [setMeta] at this ⊢
+            simp_all
+        rw [hoff] at h2
+        simp only [convFrames, Function.comp, sessMeta, h1, h2, Option.getD_some]
+        exact h3
+    apply this
+    intro s hs
+    rw [(convOk_all H P info (optMeta o false) xs s hs).opts]
+    rfl
+  · intro s _
+    exact (Props.C13.session_meta_only_adds (Pipeline.ops H P (keysOf fk xs)) (connRecs info s.st)).1
+
+-- ====================================================================== 3. C10: ports
+/-- **C10, whole program, items level.** Every frame of every exported TLS conversation runs between the client's
+    ORIGINAL endpoint (address and port as captured) and the server's address with the exported server port: the original
+    port when `keep_original_ports` (no `-m`), else the port the map lists for it, else 8080. The roles are those decided
+    on the conversation's first packet: the server is the side whose port is in the server-port list (`rolesOf`), and
+    that port is in the list. A TCP packet none of whose ports is in the list is in no conversation: it contributes no
+    frame. -/
+theorem export_ports_tls_items (o : Opts) (fk : Option (List Keylog.Key)) (xs : List (Item Keylog.Key)) :
+    (∀ s ∈ tlsConvs H P info o xs, ∀ pkt ∈ convFrames H P info (keysOf fk xs) s,
+      let sp := TcpOut.exportedServerPort o.keep (Pipeline.portmapFn o.portmap) s.server.port
+      ((pkt.src = s.client ∧ pkt.dst = ⟨s.server.ip, sp⟩) ∨ (pkt.src = ⟨s.server.ip, sp⟩ ∧ pkt.dst = s.client)) ∧
+      (o.keep = true → sp = s.server.port) ∧
+      (o.keep = false → sp = ((Pipeline.portmapFn o.portmap) s.server.port).getD 8080)) ∧
+    (∀ s ∈ tlsConvs H P info o xs, ∃ p0 ∈ tcpView o xs, (s.server, s.client) = rolesOf o.ports p0 ∧
+      o.ports.contains (s.server.port : Int) = true) ∧
+    (∀ p ∈ tcpView o xs, candidate o p = false → ∀ s ∈ tlsConvs H P info o xs, p ∉ s.st.pkts) := by
+  refine ⟨?_, ?_, ?_⟩
+  · intro s hs pkt hpkt
+    have hok := convOk_all H P info o xs s hs
+    intro sp
+    refine ⟨?_, by intro hk; simp [sp, TcpOut.exportedServerPort, hk], by intro hk; simp [sp, TcpOut.exportedServerPort, hk]⟩
+    simp only [convFrames, connOut_eq] at hpkt
+    cases hb : TcpOut.build ((Session.run (Pipeline.ops H P (keysOf fk xs)) s.st.opts.metadata Session.St.init
+        (connRecs info s.st)).traffic.map (Lemmas.Pipeline.toRec fun id => (info id).ts)) with
+    | none => rw [hb] at hpkt; simp at hpkt
+    | some fs =>
+      rw [hb] at hpkt
+      simp only [Option.map_some, Option.getD_some, List.mem_map] at hpkt
+      obtain ⟨f, _, rfl⟩ := hpkt
+      simp only [Pipeline.addressed, hok.opts, hok.server, hok.client]
+      cases f.fromServer
+      · exact .inl ⟨rfl, rfl⟩
+      · exact .inr ⟨rfl, rfl⟩
+  · intro s hs
+    obtain ⟨p0, rest, h4, h5, h6, _⟩ := (convOk_all H P info o xs s hs).first
+    have hmem := ((convOk_all H P info o xs s hs).pkts p0 (by rw [h4]; simp)).1
+    refine ⟨p0, hmem, h6, ?_⟩
+    simp only [rolesOf] at h6
+    simp only [candidate, Bool.or_eq_true] at h5
+    split at h6
+    · rename_i hc
+      have : s.server = p0.src := by simpa using congrArg Prod.fst h6
+      rw [this]; exact hc
+    · rename_i hc
+      have : s.server = p0.dst := by simpa using congrArg Prod.fst h6
+      rw [this]
+      rcases h5 with h5 | h5
+      · exact h5
+      · exact absurd h5 hc
+  · intro p _ hc s hs hmem
+    have := ((convOk_all H P info o xs s hs).pkts p hmem).2.2
+    rw [hc] at this; cases this
 
 end TLX.Props.ExportProps
